@@ -150,9 +150,18 @@ package processor
 //@     invariant [sigs-count] len(sigs) == cntKeys(domOf(p.state.vaaSignatures[hash].signatures), gs.Keys, $i)
 
 //@ func (p *Processor) broadcastSignature(v *vaa.VAA, signature []byte, txhash []byte)
-//@   props C13 C01 C02
+//@   props C13 C01 C02 C14
 //@   ensures [records-own-observation] indom(p.state.vaaSignatures, hexs(bytes32(vaa.digestOf(v)))) && p.state.vaaSignatures[hexs(bytes32(vaa.digestOf(v)))].ourVAA == v && p.state.vaaSignatures[hexs(bytes32(vaa.digestOf(v)))].gs == p.gs && p.state.vaaSignatures[hexs(bytes32(vaa.digestOf(v)))].ourMsg != nil
 //@   ensures [broadcasts-observation] nsent(p.sendC) == old(nsent(p.sendC)) + 1
+//@   ensures [records-originating-transaction] p.state.vaaSignatures[hexs(bytes32(vaa.digestOf(v)))].txHash == txhash && p.state.vaaSignatures[hexs(bytes32(vaa.digestOf(v)))].ourMsg == lastsent(p.sendC)
+//@   ensures [re-observation-keeps-progress] old(indom(p.state.vaaSignatures, hexs(bytes32(vaa.digestOf(v))))) ==> p.state.vaaSignatures[hexs(bytes32(vaa.digestOf(v)))] == old(p.state.vaaSignatures[hexs(bytes32(vaa.digestOf(v)))])
+//@     | && p.state.vaaSignatures[hexs(bytes32(vaa.digestOf(v)))].submitted == old(p.state.vaaSignatures[hexs(bytes32(vaa.digestOf(v)))].submitted)
+//@     | && p.state.vaaSignatures[hexs(bytes32(vaa.digestOf(v)))].settled == old(p.state.vaaSignatures[hexs(bytes32(vaa.digestOf(v)))].settled)
+//@     | && p.state.vaaSignatures[hexs(bytes32(vaa.digestOf(v)))].retryCount == old(p.state.vaaSignatures[hexs(bytes32(vaa.digestOf(v)))].retryCount)
+//@     | && p.state.vaaSignatures[hexs(bytes32(vaa.digestOf(v)))].lastRetry == old(p.state.vaaSignatures[hexs(bytes32(vaa.digestOf(v)))].lastRetry)
+//@     | && p.state.vaaSignatures[hexs(bytes32(vaa.digestOf(v)))].firstObserved == old(p.state.vaaSignatures[hexs(bytes32(vaa.digestOf(v)))].firstObserved)
+//@     | && p.state.vaaSignatures[hexs(bytes32(vaa.digestOf(v)))].signatures == old(p.state.vaaSignatures[hexs(bytes32(vaa.digestOf(v)))].signatures)
+//@   ensures [other-entries-untouched] forall h in dom(p.state.vaaSignatures) :: h != hexs(bytes32(vaa.digestOf(v))) ==> old(indom(p.state.vaaSignatures, h)) && p.state.vaaSignatures[h] == old(p.state.vaaSignatures[h])
 //@   ensures [never-stores] storeUnchanged(p.db)
 //@   requires Inv(p) && v != nil
 //@   requires InvSig(p)
